@@ -24,6 +24,9 @@ RULE = (
     "order; exactly one new ps:Z and one new ht:Z ('<contig>-<phaseset>' and the haplotype for phased reads, none/none otherwise), also "
     "when the input already carries ps/ht fields from an earlier run. "
     "Non-trivial = file with a '-' strand record, a phased, an unphased and a missing read. Distinct by SHA-1 of the case."
+    " Later additions: read names with quotes, slashes, '#', non-ASCII letters; reads absent from the table "
+    "whose names extend a listed name; tables without the header line; conflicting listings of a read (any "
+    "one listing accepted, never a mixture)."
 )
 ASSUMPTIONS = ["reads listed several times in the TSV are listed identically"]
 
